@@ -131,7 +131,16 @@ def materialize(x):
     """drop the generator's private keys and turn number markers into numbers of their type"""
     import numpy as np
     if isinstance(x, dict):
-        return {k: materialize(v) for k, v in x.items() if not (isinstance(k, str) and k.startswith("_"))}
+        cont = x.get("_containers") or {}
+        out = {}
+        for k, v in x.items():
+            if isinstance(k, str) and k.startswith("_"):
+                continue
+            mv = materialize(v)
+            if k in cont and isinstance(mv, list):       # the same sequence handed over in another container type
+                mv = tuple(mv) if cont[k] == "tuple" else np.array(mv) if cont[k] == "ndarray" else mv
+            out[k] = mv
+        return out
     if isinstance(x, (list, tuple)):
         if len(x) == 3 and x[0] == "__num__":
             t, v = x[1], x[2]
@@ -140,6 +149,11 @@ def materialize(x):
                     "arange-item": lambda: np.arange(int(v), int(v) + 2)[0]}[t]()
         return [materialize(v) for v in x]
     return x
+
+
+def container(rng, d, key, kinds=("list", "list", "tuple", "ndarray")):
+    """record in which container type the list stored under `key` is handed to the real code"""
+    d.setdefault("_containers", {})[key] = rng.choice(kinds)
 
 
 def maybe_units(rng, d, fn):
@@ -202,7 +216,9 @@ def gen_model(rng, want_space=None):
     net = {"species": species}
     if reactions or rng.random() < 0.5:
         net["reactions"] = reactions
-    net[alias(rng, "rdnetwork_from_dict", "environments")] = envs
+    ek = alias(rng, "rdnetwork_from_dict", "environments")
+    net[ek] = envs
+    container(rng, net, ek, ("list", "list", "tuple"))
     maybe_units(rng, net, "rdnetwork_from_dict")
     kind = want_space or rng.choice(["grid", "grid", "graph"])
     if kind == "grid":
@@ -214,8 +230,9 @@ def gen_model(rng, want_space=None):
             sp[alias(rng, "rdgridspace_from_dict", k)] = v
         size = w * h * d
         if rng.random() < 0.7:
-            sp[alias(rng, "rdgridspace_from_dict", "cell_env")] = (rng.randrange(len(envs)) if rng.random() < 0.3
-                                                                   else [rng.randrange(len(envs)) for _ in range(size)])
+            ck = alias(rng, "rdgridspace_from_dict", "cell_env")
+            sp[ck] = (rng.randrange(len(envs)) if rng.random() < 0.3 else [rng.randrange(len(envs)) for _ in range(size)])
+            container(rng, sp, ck)
         if rng.random() < 0.7:
             sp[alias(rng, "rdgridspace_from_dict", "cell_volume")] = qty(rng, (3, 0, 0)) or 1.0
         if rng.random() < 0.6:
@@ -252,11 +269,15 @@ def gen_model(rng, want_space=None):
         system["state"] = {"value": [float(rng.randint(0, 20)) for _ in range(ns * size)], "units": rng.choice(QTY)}
     elif r < 0.4:
         system["state"] = [float(rng.randint(0, 20)) for _ in range(ns * size)]
+    if "state" in system:
+        container(rng, system, "state")
     if rng.random() < 0.3:
         system["chemostats"] = [rng.randint(0, 1) for _ in range(ns * size)]
+        container(rng, system, "chemostats")
     maybe_units(rng, system, "rdsystem_from_dict")
     ts = sorted(float(rng.randint(0, 20)) / 4 for _ in range(rng.randint(1, 4)))
     script = {"system": system, "t_sample": ts if rng.random() < 0.6 else {"value": ts, "units": rng.choice(TIME)}}
+    container(rng, script, "t_sample")
     if rng.random() < 0.7:
         script[alias(rng, "rdscript_from_dict", "time_step")] = qty(rng, (0, 1, 0)) or 0.5
     if rng.random() < 0.5:
@@ -275,8 +296,9 @@ def gen_model(rng, want_space=None):
 
 
 def strip_private(x):
+    """the generator's bookkeeping keys removed (the container choices are kept: they are part of the input)"""
     if isinstance(x, dict):
-        return {k: strip_private(v) for k, v in x.items() if not (isinstance(k, str) and k.startswith("_"))}
+        return {k: strip_private(v) for k, v in x.items() if not (isinstance(k, str) and k.startswith("_") and k != "_containers")}
     if isinstance(x, list):
         return [strip_private(v) for v in x]
     return x
@@ -432,9 +454,13 @@ def inject(rng, script, info, cls):
         if not cands:
             return None
         path, fn, d, s, k0 = rng.choice(cands)
-        k1 = rng.choice([k for k in s if k != k0])
-        d[k1] = copy.deepcopy(d[k0])
-        return path, {"op": "validate", "kind": "keys", "fn": fn, "keys": pub_keys(d)}, "keys %r and %r" % (k0, k1)
+        others = [k for k in s if k != k0]
+        rng.shuffle(others)
+        extra = others[:rng.choice([1, 1, 2, 3])]                 # two, three or four names of the same entry at once
+        for k1 in extra:
+            d[k1] = copy.deepcopy(d[k0])
+        return path + ("" if len(extra) == 1 else "(%d names)" % (len(extra) + 1)), \
+            {"op": "validate", "kind": "keys", "fn": fn, "keys": pub_keys(d)}, "keys %r" % ([k0] + extra)
     if cls == "missing-key":
         cands = [(path, fn, d, k) for path, fn, d in lv for k in SPEC_MANDATORY.get(fn, [])]
         path, fn, d, key = rng.choice(cands)
@@ -530,16 +556,19 @@ def inject(rng, script, info, cls):
             if k in ("cell_env", "cell_environments", "cell environments", "environments", "env") and isinstance(sp[k], list):
                 sp[k] = 0
         k = find(sp, "rdgridspace_from_dict", key)
-        val = rng.choice([0, -1, -3])
+        val = rng.choice([0, -1, -3, 0.5, -0.5, 0.999, -0.25, 1e-9, ["__num__", "np.float64", 0.5], ["__num__", "np.float32", 0.25]])
         sp[k] = val
-        whd = {kk: sp[find(sp, "rdgridspace_from_dict", kk)] for kk in ("w", "h", "d")}
-        return "space." + key, dict({"op": "validate", "kind": "grid_ctor", "env": {"num": 0}}, **whd), "%s = %d" % (key, val)
+        # the documented conversion is int(): a size in (-1, 1) is 0 cells
+        whd = {kk: int(materialize(sp[find(sp, "rdgridspace_from_dict", kk)])) for kk in ("w", "h", "d")}
+        return "space." + key + ("" if isinstance(val, int) else "(fractional)"), \
+            dict({"op": "validate", "kind": "grid_ctor", "env": {"num": 0}}, **whd), "%s = %r" % (key, val)
     if cls == "env-map-length":
         if info["kind"] != "grid":
             return None
         k = find(sp, "rdgridspace_from_dict", "cell_env") or "cell_env"
         n = info["size"] + rng.choice([-1, 1, 2]) if info["size"] > 1 else info["size"] + rng.choice([1, 2])
         sp[k] = [0] * n
+        container(rng, sp, k)
         w, h, d = info["shape"]
         return "space.cell_env", {"op": "validate", "kind": "grid_ctor", "w": w, "h": h, "d": d, "env": {"arr": sp[k]}}, "cell_env of length %d for %d cells" % (n, info["size"])
     if cls in ("env-beyond-list", "env-beyond-list-explicit-state"):
@@ -599,7 +628,9 @@ def inject(rng, script, info, cls):
             e = list(net[k])
             e.insert(rng.randint(0, len(e)), "default")
             net[k] = e
-        return "network.environments", {"op": "validate", "kind": "environments", "envs": net[k]}, "environments %r" % net[k]
+        container(rng, net, k, ("list", "tuple", "tuple", "ndarray"))
+        kind = net["_containers"][k]
+        return "network.environments(%s)" % kind, {"op": "validate", "kind": "environments", "envs": net[k]}, "environments %r given as a %s" % (net[k], kind)
     if cls == "unknown-species":
         if not net.get("reactions"):
             net["reactions"] = [{"stoichiometry": " -> ", "_orders": (0, 0)}]
@@ -666,12 +697,35 @@ def spec_species(labels, sref):
     return labels.index(sref) if sref in labels else None
 
 
+class Coord:
+    """a position given as an object with x, y, z attributes (the documented Coord-like form)"""
+    def __init__(self, x, y, z):
+        self.x, self.y, self.z = x, y, z
+
+    def __repr__(self):
+        return "Coord(%d, %d, %d)" % (self.x, self.y, self.z)
+
+
+def pos_value(pos):
+    """wire / case form of a position -> the Python value handed to the real code: int | tuple | Coord"""
+    if isinstance(pos, dict):
+        return Coord(*pos["obj"])
+    return tuple(pos) if isinstance(pos, (list, tuple)) else pos
+
+
+def pos_coords(pos):
+    """the coordinate triple a tuple / object position denotes (None for a linear index)"""
+    if isinstance(pos, dict):
+        return tuple(pos["obj"])
+    return tuple(pos) if isinstance(pos, (list, tuple)) else None
+
+
 def access(kind, shape, labels, sref, pos, accessor, periodic=(), reuse=None):
     """run one accessor call on a fresh system; returns the observation.
     reuse = {"resolve": label, "new_labels": [...]}: first resolve a species by label once, then replace the network's
     species list through its public setter (the stored arrays keep their old layout), then make the call"""
     rds, state0, chem0, size = make_system(kind, shape, labels, periodic=periodic)
-    p = tuple(pos) if isinstance(pos, (list, tuple)) else pos
+    p = pos_value(pos)
     out = {}
     if reuse is not None:
         from strengths.rdnetwork import Species
@@ -725,7 +779,8 @@ def check_access(ctx, kind, shape, labels, sref, pos, accessor, periodic=(), reu
     built_labels = labels
     if reuse is not None:
         labels = reuse["new_labels"]          # the species list at the time of the call
-    p = tuple(pos) if isinstance(pos, (list, tuple)) else pos
+    is_obj = isinstance(pos, dict)
+    p = pos_coords(pos) if pos_coords(pos) is not None else pos          # triple (tuple or object form) or linear index
     size = shape[0] * shape[1] * shape[2] if kind == "grid" else shape
     cell = spec_cell(kind, shape, p)
     if accessor == "get_cell_coordinates" and isinstance(p, tuple):
@@ -734,15 +789,16 @@ def check_access(ctx, kind, shape, labels, sref, pos, accessor, periodic=(), reu
     s = spec_species(labels, sref) if needs_species else 0
     valid = cell is not None and s is not None
     case = {"kind": "access", "space": kind, "shape": list(shape) if kind == "grid" else shape, "labels": built_labels, "species": sref,
-            "pos": list(p) if isinstance(p, tuple) else p, "accessor": accessor, "periodic": list(periodic)}
+            "pos": {"obj": list(p)} if is_obj else list(p) if isinstance(p, tuple) else p, "accessor": accessor, "periodic": list(periodic)}
     if reuse is not None:
         case["reuse"] = reuse
     if accessor == "is_within_bounds":
         if got["result"] != "ok" or got.get("value") != (cell is not None):
-            report(ctx, "position:is_within_bounds:%s" % ("coords" if isinstance(p, tuple) else "linear"),
+            report(ctx, "position:is_within_bounds:%s" % ("object" if is_obj else "coords" if isinstance(p, tuple) else "linear"),
                           "is_within_bounds(%r) = %r on a %s %r" % (p, got.get("value", got.get("exc")), kind, shape), case, impl=got, expected=(cell is not None))
         return got, valid, case
-    form = "coords" if isinstance(p, tuple) else "linear"
+    form = "object" if is_obj else "coords" if isinstance(p, tuple) else "linear"
+    shown = pos_value(pos) if is_obj else p
     if not valid:
         what = "unknown species" if (cell is not None and s is None) else "position outside the space"
         key = ("unknown-species:%s" % accessor) if (cell is not None and s is None) else ("position:%s:%s:%s" % (kind, form, accessor))
@@ -750,7 +806,7 @@ def check_access(ctx, kind, shape, labels, sref, pos, accessor, periodic=(), reu
             key = "unknown-species:after-species-replaced:%s" % accessor
         if got["result"] == "ok" or got["state_changed"] or got["chem_changed"]:
             report(ctx, key, "%s(%r, %r) on a %s %r with %d species: %s, yet it %s" % (
-                accessor, sref, p, kind, shape, len(labels), what,
+                accessor, sref, shown, kind, shape, len(labels), what,
                 ("returned %r" % (got.get("value"),)) if got["result"] == "ok" else "changed the stored arrays"), case, impl=got, expected="exception, arrays untouched")
         return got, valid, case
     # valid call: exactly the named entry
@@ -776,14 +832,14 @@ def check_access(ctx, kind, shape, labels, sref, pos, accessor, periodic=(), reu
         if got["state_changed"] != want_state or got["chem_changed"] != want_chem:
             ok = False
     if not ok:
-        report(ctx, ("entry:after-species-replaced:%s" % accessor) if reuse is not None else "entry:%s:%s:%s" % (kind, form, accessor), "%s(%r, %r) on a %s %r does not address entry %d only" % (accessor, sref, p, kind, shape, idx),
+        report(ctx, ("entry:after-species-replaced:%s" % accessor) if reuse is not None else "entry:%s:%s:%s" % (kind, form, accessor), "%s(%r, %r) on a %s %r does not address entry %d only" % (accessor, sref, shown, kind, shape, idx),
                       case, impl=got, expected={"entry": idx, "value": exp})
     return got, valid, case
 
 
 def model_access_op(kind, shape, labels, sref, pos, accessor, state0):
     space = {"grid": {"w": shape[0], "h": shape[1], "d": shape[2]}} if kind == "grid" else {"graph": shape}
-    p = {"xyz": list(pos)} if isinstance(pos, (tuple, list)) else {"p": pos}
+    p = {"obj": list(pos["obj"])} if isinstance(pos, dict) else {"xyz": list(pos)} if isinstance(pos, (tuple, list)) else {"p": pos}
     sp = {"idx": sref} if isinstance(sref, int) else {"label": sref}
     if accessor in ("get_state", "get_chemostat", "get_state_index", "set_chemostat"):
         return {"op": "validate", "kind": "state_index", "labels": labels, "space": space, "species": sp, "pos": p}
@@ -888,7 +944,7 @@ def run(ctx):
     import strengths  # noqa
 
     # ---------------------------------------------------------------- 1. faulted models
-    n = ctx.n(1500, 25000)
+    n = ctx.n(1300, 25000)
     ops, meta = [], []
     base_rejected = 0
     for i in range(n):
@@ -1007,8 +1063,21 @@ def direct_setters(ctx):
             add("env-map-length", "RDGridSpace(%d,%d,%d,cell_env=[0]*%d)" % (w, h, d, n),
                 {"op": "validate", "kind": "grid_ctor", "w": w, "h": h, "d": d, "env": {"arr": [0] * n}}, invalid=(n != w * h * d))
     for envs in [[], ["default"], ["a", "default"], ["default", "a"], ["a"], ["a", "b"], [""], ["Default"], ["a", "b", "default", "c"]]:
-        add("environments", "RDNetwork(environments=%r)" % envs, {"op": "validate", "kind": "environments", "envs": envs},
-            invalid=(len(envs) == 0 or "default" in envs))
+        for cont in ("list", "tuple", "ndarray"):
+            invalid = (len(envs) == 0 or "default" in envs)
+            if cont == "ndarray" and not invalid:
+                continue            # numpy strings are not `str` for the setter: a valid list given as an array is refused (not C20's concern)
+            add("environments", "RDNetwork(environments=%s(%r))" % (cont, envs),
+                {"op": "validate", "kind": "environments", "envs": envs, "container": cont}, invalid=invalid)
+    # fractional sizes: the documented conversion is int(), so a size in (-1, 1) means no cell
+    for frac in (0.5, -0.5, 0.999, -0.999, 1e-9, ["__num__", "np.float64", 0.5], ["__num__", "np.float32", 0.75], 1.5, 2.75):
+        for axis in range(3):
+            raw = [2, 1, 3]
+            raw[axis] = frac
+            ints = [int(materialize(v)) for v in raw]
+            add("grid-size", "RDGridSpace(%r, %r, %r)" % tuple(raw),
+                {"op": "validate", "kind": "grid_ctor", "w": ints[0], "h": ints[1], "d": ints[2], "env": {"num": 0}, "raw": raw},
+                invalid=any(v <= 0 for v in ints))
     for kind, syms, pos in (("space", SPACE, 0), ("time", TIME, 1), ("quantity", QTY, 2)):
         for sym in syms + BAD_SYMBOLS[kind] + SPACE[:2] + TIME[:2] + QTY[:2]:
             full = list(DEFAULT_SYS)
@@ -1108,11 +1177,16 @@ def thunk_of(op):
             return call(lambda: RDScript(rds0, [1.0], sampling_policy=op["v"]))
         return call(lambda: RDScript(rds0, [1.0], init_state_processing=op["v"]))
     if k == "grid_ctor":
+        if "raw" in op:
+            raw = materialize(op["raw"])
+            return call(lambda: RDGridSpace(raw[0], raw[1], raw[2]))
         if "arr" in op["env"]:
             return call(lambda: RDGridSpace(op["w"], op["h"], op["d"], cell_env=list(op["env"]["arr"])))
         return call(lambda: RDGridSpace(op["w"], op["h"], op["d"]))
     if k == "environments":
-        return call(lambda: RDNetwork([Species("A")], [], environments=list(op["envs"])))
+        import numpy as np
+        envs = {"tuple": tuple, "ndarray": np.array}.get(op.get("container"), list)(op["envs"])
+        return call(lambda: RDNetwork([Species("A")], [], environments=envs))
     if k == "sys":
         return call(lambda: UnitsSystem(op["space"], op["time"], op["quantity"]))
     if k == "env_map":
@@ -1215,6 +1289,8 @@ def positional_sweep(ctx):
                     for z in range(-2, d + 2):
                         if thorough or rng.random() < 0.35:
                             one("grid", shape, labels, sref, (x, y, z), acc)
+                        if thorough or rng.random() < 0.25:
+                            one("grid", shape, labels, sref, {"obj": [x, y, z]}, acc)
         per = rng.choice([(), ("x",), ("x", "y", "z")])
         for acc in SPACE_ACCESSORS + ["get_cell_coordinates", "is_within_bounds"]:
             if not thorough and rng.random() < 0.5:
@@ -1227,6 +1303,25 @@ def positional_sweep(ctx):
                         for z in range(-2, d + 2):
                             if thorough or rng.random() < 0.25:
                                 one("grid", shape, ["A", "B"], 0, (x, y, z), acc, per)
+                            if thorough or rng.random() < 0.2:
+                                one("grid", shape, ["A", "B"], 0, {"obj": [x, y, z]}, acc, per)
+    # one axis outside (below 0 / at or beyond the size) while the other two are in range: every axis, every accessor
+    # and setter, as a tuple and as an object with x, y, z attributes
+    for shape in shapes:
+        dims = list(shape)
+        for axis in range(3):
+            bad_values = [-1, -2, dims[axis], dims[axis] + 1]
+            for bad in (bad_values if thorough else rng.sample(bad_values, 2)):
+                xyz = [rng.randrange(dims[0]), rng.randrange(dims[1]), rng.randrange(dims[2])]
+                xyz[axis] = bad
+                labels = rng.choice(label_sets)
+                sref = rng.choice(labels + list(range(len(labels))))
+                for acc in SPECIES_ACCESSORS + SPACE_ACCESSORS + ["is_within_bounds"]:
+                    one("grid", shape, labels, sref, tuple(xyz), acc)
+                    one("grid", shape, labels, sref, {"obj": list(xyz)}, acc)
+    for nn in range(1, 4):
+        for acc in SPECIES_ACCESSORS + SPACE_ACCESSORS:
+            one("graph", nn, ["A", "B"], "A", {"obj": [0, 0, 0]}, acc)       # a graph node is never an object / a triple
     for nn in range(1, 7):
         for labels in label_sets:
             srefs = list(range(-1, len(labels) + 1)) + labels + ["Z"]
@@ -1274,7 +1369,7 @@ def replay(ctx, rec):
             def violation(self, key, what, case, impl=None, expected=None):
                 self.v.append([key, what])
         c = _C()
-        pos = tuple(case["pos"]) if isinstance(case["pos"], list) else case["pos"]
+        pos = case["pos"] if isinstance(case["pos"], dict) else tuple(case["pos"]) if isinstance(case["pos"], list) else case["pos"]
         shape = tuple(case["shape"]) if isinstance(case["shape"], list) else case["shape"]
         got, valid, _ = check_access(c, case["space"], shape, case["labels"], case["species"], pos, case["accessor"], tuple(case.get("periodic", ())),
                                      case.get("reuse"))
